@@ -122,10 +122,17 @@ def rule_I1(ctx):
     """a swallowed parse error of one record does not change where / whether the other records are read"""
     # (a) AKAI file table
     fe = ctx.fn(AK + "file_entry.py", "FileEntriesAdapter._parse", "I1")
-    fors = [f for f in own_nodes(fe) if isinstance(f, ast.For) and norm(f.iter).startswith("range(")]
-    if len(fors) != 1:
+    ps = [c for c in own_nodes(fe) if isinstance(c, ast.Call) and norm(c.func) == "self.subcon.parse_stream"]
+    loop = None
+    if ps:
+        t = ps[0]
+        while t is not None and t is not fe:
+            t = getattr(t, "_parent", None)
+            if isinstance(t, (ast.For, ast.While)):
+                loop = t
+                break
+    if loop is None:
         raise AnalysisError("I1", where(fe), "entry loop not found")
-    loop = fors[0]
     ps = [c for c in ast.walk(loop) if isinstance(c, ast.Call) and norm(c.func) == "self.subcon.parse_stream"]
     ok = len(ps) == 1
     ctx.ob("I1", loop, "AKAI file table: one entry is parsed per iteration", ok, "", inst="akai-table:one-parse")
@@ -197,21 +204,75 @@ def rule_I1(ctx):
     ctx.ob("I1", fa, "file content errors (bad sector reference, bad character) surface as ConstructError", ok, "", inst="file-adapter")
     # (d) SafeListConstruct
     sl = ctx.fn("smpl_extract/util/constructs.py", "SafeListConstruct._parse", "I1")
-    fors = [f for f in own_nodes(sl) if isinstance(f, ast.For) and norm(f.iter) == "range(count)"]
-    ok = len(fors) == 1
+    pc = [x for x in own_nodes(sl) if isinstance(x, ast.Call) and norm(x.func) == "self.subcon._parsereport"]
+    loop = None
+    if len(pc) == 1:
+        t = pc[0]
+        while t is not None and t is not sl:
+            t = getattr(t, "_parent", None)
+            if isinstance(t, ast.For):
+                loop = t
+                break
+    ok = loop is not None and isinstance(loop.target, ast.Name)
+    det = "element loop not found"
+    store_dict = None
     if ok:
-        c = [x for x in ast.walk(fors[0]) if isinstance(x, ast.Call) and norm(x.func) == "self.subcon._parsereport"]
-        ok = len(c) == 1
-        if ok:
-            h = find_try_handler(c[0], fors[0], {"ConstructError"})
-            names = set(handler_names(h)) if h else set()
-            ok = h is not None and isinstance(h.body[-1], ast.Continue) and {"UnicodeDecodeError", "ConstructError", "KeyError", "IndexError"} <= names
-        t = full(fors[0])
-        ok = ok and "context._index = i" in t and "obj[i] = entry" in t
-    ctx.ob("I1", sl, "tolerant list: element i is parsed with _index = i; a failing element is skipped and the others keep their own index", ok, "", inst="safelist")
-    rets = [r for r in own_nodes(sl) if isinstance(r, ast.Return)]
-    ok = len(rets) == 1 and norm(rets[0].value) == "list(obj.values())"
-    ctx.ob("I1", sl, "tolerant list returns the surviving elements in index order", ok, "", inst="safelist-ret")
+        cfg = ctx.cfg(sl, "I1")
+        lp = cfg.loop_of(loop)
+        iv = loop.target.id + "~"
+        # the loop runs over range(evaluate(self.count, context))
+        pre = [p for p in run_paths(ctx, sl, rule="I1") if p.end == "return"]
+        it_ok = False
+        for p in pre:
+            for s_ in p.steps:
+                if s_.ast is loop:
+                    it_ok = evaluator(ctx, sl, s_.env).ev(loop.iter).key() == "range(evaluate(self.count,context))"
+        n_err = n_ok = 0
+        det = "" if it_ok else "the loop does not run over range(count)"
+        ok = it_ok
+        for kind, path, edge in cfg.iteration_paths(lp, skip_labels=()):
+            if kind == "exit" and len(path) == 1:
+                continue
+            pr = _walk(ctx, sl, cfg, path)
+            if _infeasible(pr):
+                continue
+            via_h = any(s_.kind == "except" for s_ in pr.steps)
+            stores = [s_ for s_ in pr.steps if s_.kind == "stmt" and isinstance(s_.ast, ast.Assign) and isinstance(s_.ast.targets[0], ast.Subscript)
+                      and isinstance(s_.ast.targets[0].value, ast.Name)]
+            idx_sets = [s_ for s_ in pr.steps if s_.kind == "stmt" and isinstance(s_.ast, ast.Assign) and norm(s_.ast.targets[0]) == "context._index"]
+            parses = [(c, e) for c, e, st in calls_on(pr) if c is pc[0]]
+            if not parses:
+                continue
+            if not idx_sets or evaluator(ctx, sl, idx_sets[-1].env).ev(idx_sets[-1].ast.value).key() != iv \
+                    or pr.steps.index(idx_sets[-1]) > [i for i, s_ in enumerate(pr.steps) if s_.kind == "stmt" and any(x is pc[0] for x in ast.walk(s_.ast))][0]:
+                ok, det = False, "an element is parsed without context._index set to its own index"
+            if via_h:
+                n_err += 1
+                if kind != "back":
+                    ok, det = False, f"a failing element ends the list (path lines {pr.lines()})"
+                if stores:
+                    ok, det = False, "a failing element still stores something"
+            elif kind == "back":
+                n_ok += 1
+                for s_ in stores:
+                    ev = evaluator(ctx, sl, s_.env)
+                    tgt = s_.ast.targets[0]
+                    if ev.ev(tgt.slice).key() != iv or ev.ev(s_.ast.value).key() != ev.ev(pc[0]).key():
+                        ok, det = False, f"stored as `{norm(s_.ast)}`: not this element under its own index"
+                    store_dict = tgt.value.id
+        ok = ok and n_err >= 1 and n_ok >= 1 and store_dict is not None
+        names = set()
+        for t in ast.walk(loop):
+            if isinstance(t, ast.Try):
+                for h in t.handlers:
+                    names |= set(handler_names(h))
+        if not {"UnicodeDecodeError", "ConstructError", "KeyError", "IndexError"} <= names:
+            ok, det = False, f"the per-element handler catches only {sorted(names)}"
+    ctx.ob("I1", sl, "tolerant list: element i is parsed with _index = i; a failing element is skipped and the others keep their own index", ok, det if not ok else "", inst="safelist")
+    from .sem import return_canons
+    rc = return_canons(sl)
+    ok = store_dict is not None and rc == [f"list({store_dict}.values())"]
+    ctx.ob("I1", sl, "tolerant list returns the surviving elements in index order", ok, f"{rc}", inst="safelist-ret")
     # every SafeListConstruct over records addresses them by Pointer (zero sequential footprint)
     from ..core.layout import Layouts, Unknown, Struct as LStruct, Zero
     L = Layouts(ctx)
@@ -312,20 +373,8 @@ def rule_I2(ctx):
         pf = ctx.fn(path, prop, "I2")
         rf = ctx.fn(path, real, "I2")
         rname = real.split(".")[-1]
-        calls = [c for c in own_nodes(pf) if isinstance(c, ast.Call) and norm(c.func) == f"self.{rname}"]
-        ok = len(calls) == 1
-        guard = None
-        if ok:
-            t = calls[0]
-            while t is not None and t is not pf:
-                par = getattr(t, "_parent", None)
-                if isinstance(par, ast.If) and any(n is calls[0] for b in par.body for n in ast.walk(b)):
-                    guard = par
-                    break
-                t = par
-        ok = guard is not None and isinstance(guard.test, ast.UnaryOp) and isinstance(guard.test.op, ast.Not) and dotted(guard.test.operand) is not None
-        flag = dotted(guard.test.operand) if ok else None
-        ctx.ob("I2", pf, f"{prop}: the realiser ({why}) is called only under a `not <flag>` guard", ok, "", inst=f"{prop}:guarded")
+        flag, ok, det = _once_flag(ctx, pf, lambda c: norm(c.func) == f"self.{rname}")
+        ctx.ob("I2", pf, f"{prop}: the realiser ({why}) is called only when a flag attribute is still false", ok, det, inst=f"{prop}:guarded")
         if not ok:
             continue
         # the flag is set to a truthy constant on every normal path of the realiser, and nowhere reset
@@ -344,9 +393,8 @@ def rule_I2(ctx):
         ctx.ob("I2", rf, f"`{flag}` is written only by the constructor and the realiser", not resets, f"{resets}", inst=f"{prop}:flag-writers")
     # Volume.files applies routines once, inside the same guard
     vf = ctx.fn(AK + "volume.py", "Volume.files", "I2")
-    ifs = [i for i in own_nodes(vf) if isinstance(i, ast.If)]
-    ok = len(ifs) == 1 and any(isinstance(f, ast.For) and norm(f.iter) == "self._routines.values()" for f in ast.walk(ifs[0]))
-    ctx.ob("I2", vf, "Volume.files applies the routines inside the once-guard", ok, "", inst="Volume.files:routines-once")
+    flag, ok, det = _once_flag(ctx, vf, lambda c: norm(c.func) == "self._routines.values")
+    ctx.ob("I2", vf, "Volume.files applies the routines inside the once-guard", ok, det, inst="Volume.files:routines-once")
     # ExportManager bookkeeping
     st = "smpl_extract/structural.py"
     sl = ctx.fn(st, "ExportManager.set_level", "I2")
@@ -354,11 +402,46 @@ def rule_I2(ctx):
     ok = "self.samples.clear()" in full(sl) and "self.samples.clear()" in full(es)
     ctx.ob("I2", es, "the exporter's sample list is cleared when a level starts and after it was exported (no sample is exported twice)", ok, "", inst="ExportManager:clear")
     # lazily cached single objects
-    for path, q, attr in ((AK + "file_entry.py", "FileEntry.file", "self._file"), (AK + "partition.py", "Partition.sat", "self._sat")):
+    for path, q, attr, maker in ((AK + "file_entry.py", "FileEntry.file", "self._file", "self._f_file_content"), (AK + "partition.py", "Partition.sat", "self._sat", "self._f_sat")):
         f = ctx.fn(path, q, "I2")
-        t = full(f)
-        ok = f"if not {attr}:" in t and f"return {attr}" in t
-        ctx.ob("I2", f, f"{q} is computed once and cached", ok, "", inst=f"{q}:cache")
+        flag, ok, det = _once_flag(ctx, f, lambda c: norm(c.func) == maker)
+        ok = ok and flag == attr
+        if ok:
+            for p in run_paths(ctx, f, rule="I2"):
+                if p.end != "return":
+                    continue
+                called = any(norm(c.func) == maker for c, e, st in calls_on(p))
+                want = f"{maker}()" if called else attr
+                if p.ret is None or p.ret.key() != want or (called and p.env.get(attr) is not None and p.env[attr].key() != f"{maker}()"):
+                    ok, det = False, f"returns `{p.ret.key() if p.ret is not None else None}`"
+        ctx.ob("I2", f, f"{q} is computed once and cached", ok, det, inst=f"{q}:cache")
+
+
+def _once_flag(ctx, fn, is_call):
+    """every path of fn that executes a call selected by is_call runs with one and the same `self.<attr>` tested false, and
+    no path on which that attribute tested true executes such a call.  -> (flag text or None, ok, detail)"""
+    flags = None
+    n_call = 0
+    prs = run_paths(ctx, fn, rule="I2", limit=4000)
+    for p in prs:
+        hit = [c for c, e, st in calls_on(p) if is_call(c)]
+        tested = {}
+        for c, t, _ in p.conds:
+            neg, x = False, c
+            while x.startswith("not(") and x.endswith(")"):
+                x, neg = x[4:-1], not neg
+            if x.startswith("truthy(self.") and x.endswith(")") and "(" not in x[len("truthy("):-1]:
+                tested[x[len("truthy("):-1]] = (t != neg)
+        if hit:
+            n_call += 1
+            false_flags = {k for k, v in tested.items() if v is False}
+            flags = false_flags if flags is None else (flags & false_flags)
+    if n_call == 0:
+        return None, False, "the call was not found on any path"
+    if not flags:
+        return None, False, "a path reaches the call without a flag attribute having tested false"
+    flag = sorted(flags)[0]
+    return flag, True, ""
 
 
 def rule_I3(ctx):
